@@ -102,6 +102,7 @@ Section Prims.
     enc_len : forall k iv p, length (enc k iv p) = length p;
     dec_enc : forall k iv p, dec k iv (enc k iv p) (gtag k iv p) = Some p;
     dec_sound : forall k iv c t p, dec k iv c t = Some p -> c = enc k iv p /\ t = gtag k iv p;
+    enc_inj : forall k iv p p', enc k iv p = enc k iv p' -> p = p';
     mac_inj : forall k iv d k' iv' d', mac k iv d = mac k' iv' d' -> k = k' /\ iv = iv' /\ d = d';
     gtag_inj : forall k iv p k' iv' p', gtag k iv p = gtag k' iv' p' -> k = k' /\ iv = iv' /\ p = p';
     kdf_inj : forall r k s i r' k' s' i', kdf r k s i = kdf r' k' s' i' -> r = r' /\ k = k' /\ s = s' /\ i = i' }.
